@@ -1124,6 +1124,10 @@ class Engine:
             fv = self.resolve(st, self.operand(st, fr, c["indirect"]))
             if isinstance(fv, FnV):
                 name = rname = fv.path
+                # the function item a pointer was made from carries its generic arguments: the call is recorded (and analysed
+                # in place) like a direct call of that instantiation
+                t = dict(t)
+                t["callee"] = {"path": fv.path, "resolved": fv.path, "gargs": list(fv.gargs or ()), "resolved_gargs": list(fv.gargs or ()), "via_pointer": True}
             else:
                 name = rname = "<indirect>"
         else:
